@@ -25,6 +25,7 @@ CONSTANTS
   EnUnsub = TRUE
   EnPing = TRUE
   EnDisconnect = TRUE
+  PubEmpty = {FALSE}
   EnStale = TRUE
 SPECIFICATION TraceSpec
 CONSTRAINT Progress
